@@ -48,14 +48,23 @@ class ScenDevice(CliDevice):
     def _execute(self, raw: bytes) -> bytes:
         line = raw.decode("utf-8", "replace")
         if self.asking is not None:
-            cmd, self.asking = self.asking, None
+            cmd, idx = self.asking
+            qs = self.questions[cmd]
+            qs = qs if isinstance(qs, list) else [qs]
+            if idx + 1 < len(qs):          # next question of the dialogue
+                self.asking = (cmd, idx + 1)
+                return self.nl + qs[idx + 1].encode()
+            self.asking = None
             text = self.outputs(self.mode_name(), cmd) if self.outputs else None
             self.text_log.append((cmd, text))
             return self._frame(text)
         if self.pending is None and line.strip() in self.questions:
-            self.asking = line.strip()
+            cmd = line.strip()
+            qs = self.questions[cmd]
+            qs = qs if isinstance(qs, list) else [qs]
+            self.asking = (cmd, 0)
             self.exec_log.append((self.mode_name(), line))
-            return self.nl + self.questions[self.asking].encode()
+            return self.nl + qs[0].encode()
         if self.pending is None:
             mode = self.mode_name()
             text = None
@@ -82,6 +91,7 @@ class Scenario:
     ops: List[tuple] = field(default_factory=list)
     # ops: ("get_prompt",) | ("send_command", cmd, strip_prompt, eager_input) | ("send_commands", [cmds], strip)
     #      | ("send_interactive", [(input, expect, hidden)], complete_patterns or None)
+    prompts: Optional[Dict[str, str]] = None    # device prompt templates overriding the platform's (e.g. Junos banner line)
     initial_prompt: bool = False  # device prints its prompt at connect (as after a library-transport login); default: session starts in step
     decor: Optional[dict] = None  # {"kind": "cr"|"ansi"|"ansi+cr", "seed": n, "p": density} applied to every device output
     echo_junk: Optional[dict] = None   # rough mode: {"seed": n} extra bytes the device interleaves with the echoed input
@@ -89,7 +99,7 @@ class Scenario:
     banner: bytes = b""
 
     def describe(self):
-        d = {k: getattr(self, k) for k in ("platform", "stack", "hostname", "user", "ret", "rough", "depth", "cuts", "ops", "outputs", "questions", "trailing", "initial_prompt", "decor", "echo_junk", "cut_at")}
+        d = {k: getattr(self, k) for k in ("platform", "stack", "hostname", "user", "ret", "rough", "depth", "cuts", "ops", "outputs", "questions", "trailing", "initial_prompt", "decor", "echo_junk", "cut_at", "prompts")}
         d["nl"] = self.nl.decode("latin1")
         d["cuts"] = cuts_wire(self.cuts)
         d["banner"] = self.banner.decode("latin1")
@@ -166,6 +176,8 @@ class _JunkEcho:
         self.alphabet = spec.get("alphabet", "\x08 ~^")
 
     def echo(self, b: int) -> bytes:
+        if b in b" \t":
+            return bytes([b])       # junk never follows the last visible byte: blanks are echoed clean
         n = self.rng.choice([0, 0, 1, 2])
         return "".join(self.rng.choice(self.alphabet) for _ in range(n)).encode() + bytes([b])
 
@@ -227,7 +239,7 @@ def run_real(sc: Scenario) -> RunResult:
     res = RunResult()
     dev = ScenDevice(sc.platform if sc.platform != "generic" else "generic", hostname=sc.hostname, user=sc.user, nl=sc.nl,
                      trailing=sc.trailing, outputs=lambda mode, line: sc.outputs.get(line.strip()), questions=sc.questions,
-                     banner=sc.banner)
+                     banner=sc.banner, prompts=sc.prompts)
     dev.initial_prompt = sc.initial_prompt
     res.device = dev
     decorator = Decorator(sc.decor) if sc.decor else None
@@ -289,7 +301,14 @@ def _do(conn, op, is_async):
     if k == "send_commands":
         return conn.send_commands(list(op[1]), strip_prompt=op[2])
     if k == "send_interactive":
-        return conn.send_interactive([tuple(e) for e in op[1]], interaction_complete_patterns=op[2])
+        comp = op[2]
+        if comp is not None and len(op) > 3 and op[3] is not None:
+            # the caller re-uses ONE list object for several calls (keyed by op[3])
+            shared = conn.__dict__.setdefault("_verif_shared_lists", {})
+            comp = shared.setdefault(op[3], list(comp))
+        elif comp is not None:
+            comp = list(comp)
+        return conn.send_interactive([tuple(e) for e in op[1]], interaction_complete_patterns=comp)
     raise ValueError(op)
 
 
@@ -355,7 +374,7 @@ def model_request(sc: Scenario, res: RunResult) -> Optional[str]:
         return None
     init = res.init_avail
     cuts_used = [len(x) for x in res.reads]       # the sizes the real reads had: the same segmentation for the model
-    tbl = ",".join(f"{hexs(k)}={v}" for k, v in table.items()) or "."
+    tbl = "|".join(f"{hexs(k)}={v}" for k, v in table.items()) or "."
     depth = res.conn.channel._base_channel_args.comms_prompt_search_depth
     return (f"scen {prx} {depth} {hexs(sc.ret.encode())} {'1' if sc.rough else '0'} {cuts_wire(cuts_used + [1000000])} {hexs(init)} "
             f"{hexl(res.dev_outputs)} {tbl} {';'.join(ops)}")
